@@ -972,6 +972,25 @@ func (l *live) run() {
 			l.streamTo([]uint64{2, 3}, false)
 		case "STREAMEXP": // one streamed replica + an exported snapshot request while PrepareSnapshot dwells
 			l.streamTo([]uint64{4}, true)
+		case "LATELOAD": // an engine worker saw the node before StopShard and counts itself in afterwards
+			if l.running {
+				late, off, ok := dragonboat.VerifC11SeeNode(l.nh, shardID)
+				if ok {
+					cc := l.r.currentClosed()
+					_ = l.nh.StopShard(shardID)
+					l.running = false
+					select {
+					case <-cc:
+					case <-time.After(2 * time.Second):
+						l.st.Count("close-not-seen")
+					}
+					l.r.releaseBlocked()
+					late()
+					off() // the counter reaches zero a second time: the node goes to the close pool again
+					time.Sleep(30 * time.Millisecond)
+					l.st.Count("lateload")
+				}
+			}
 		case "INSTALL":
 			l.install()
 		case "SNAPRACE":
@@ -1571,7 +1590,7 @@ func genMatrix(r *vh.Rand, w *vh.LineWriter, seed uint64, outDir string) {
 	}
 	all := []string{"plain", "conc", "disk"}
 	mops := []mop{{"SYNCX", 2, all}, {"CLOSEHOST S", 2, all}, {"CLOSEHOST R", 2, all}, {"PENDSTOP", 1, all},
-		{"INSTALL", 2, all}, {"SNAPRACE 3", 2, all}, {"NAR", 2, all}, {"LR ; START", 2, all}, {"REOPEN ; START", 2, all},
+		{"INSTALL", 2, all}, {"LATELOAD ; START", 2, all}, {"SNAPRACE 3", 2, all}, {"NAR", 2, all}, {"LR ; START", 2, all}, {"REOPEN ; START", 2, all},
 		{"STREAM2", 2, []string{"disk"}}, {"STREAMEXP", 2, []string{"disk"}}}
 	n := 0
 	for _, m := range mops {
